@@ -21,10 +21,11 @@
   3. Two solvers over one operator (`c06_two_solvers_one_op`): in any interleaving of calls on two solver objects built over the same
      operator value each object evolves as if the other did not exist, and the observed pair agrees with a fresh solver.
   4. Operator-side state (`Model/OpShift.lean`): the installed shift after any history of `init`/`compute` calls equals the
-     constructor's for the real-shift classes unconditionally (`c06_op_shift_real`) and for `GenEigsComplexShiftSolver` as the code is
-     now whenever the USER'S operator does not throw inside the root-selection probe (`c06_op_shift_complex`); the pre-repair code is
-     refuted on the model (`example` below: F3), and a throw of the user's operator inside the probe leaves the probe shift
-     installed (`c06_op_shift_complex_throw_in_probe`: full-strength clause false in that corner, see the comment there).
+     constructor's for the real-shift classes (`c06_op_shift_real`) and for `GenEigsComplexShiftSolver` as the code is now
+     (`c06_op_shift_complex`) UNCONDITIONALLY — converging or not, rejected rules, the user's operator throwing at ANY application
+     including the root-selection probe (the probe loop's `catch (...)` handler re-installs the shift).  The two earlier versions of
+     the code are refuted on the model: no restore at all (F3, `c06_op_shift_complex_old_refuted`) and restore on the normal path
+     only (F3b, `c06_op_shift_complex_unguarded_refuted`).
   5. Structural facts regenerated from the headers on every run: every random generator is a non-static local seeded by a
      constant expression (`c06_seed_pure`), no variable with static storage, and the only `mutable` members are the scratch
      caches that are written before they are read (`c06_no_hidden_state`).
@@ -309,22 +310,21 @@ theorem c06_op_shift_real (sigma old : σ) (hist : List (CallEv σ)) (h : ∀ ce
     rw [runCalls_cons, exec_noSet _ _ _ (h ce (List.mem_cons_self))]
     exact ih (fun ce' hm => h ce' (List.mem_cons_of_mem _ hm))
 
-/-- a public call of `GenEigsComplexShiftSolver` (code as it is now) in which the user's operator does not throw inside the
-    root-selection probe of `sort_ritzpair` -/
+/-- a public call of `GenEigsComplexShiftSolver` (code as it is now): operator applications only (`init`, or a `compute` whose
+    events are not further described), or a `compute` — with the user's operator throwing anywhere or nowhere -/
 def ComplexCall (sigma : σ) (ce : CallEv σ) : Prop :=
-  NoSet ce.evs ∨ ∃ probe nIter nProbe rs, ce.evs = computeComplex sigma probe nIter nProbe rs ∧ inProbe nIter nProbe rs ce.throwAt = false
+  NoSet ce.evs ∨ ∃ probe nIter nProbe rs, ce.evs = computeComplex sigma probe nIter nProbe rs
 
-/-- one `compute()` of `GenEigsComplexShiftSolver` entered with the constructor's shift installed leaves it installed: normal
-    return (any iteration count, any number of probes), exception of the iteration before `sort_ritzpair` (`rs = false`), unsupported
-    sorting rule (thrown by the base class AFTER the restore), user's operator throwing during the iteration -/
-theorem c06_op_shift_complex_compute (sigma probe : σ) (nIter nProbe : Nat) (rs : Bool) (th : Option Nat)
-    (h : inProbe nIter nProbe rs th = false) :
+/-- one `compute()` of `GenEigsComplexShiftSolver` entered with the constructor's shift installed leaves it installed on EVERY
+    path: normal return (any iteration count, any number of probes), exception of the iteration before `sort_ritzpair`
+    (`rs = false`), unsupported sorting rule (thrown by the base class AFTER the restore), user's operator throwing during the
+    iteration, and user's operator throwing during the root-selection probe (the `catch (...)` handler re-installs it) -/
+theorem c06_op_shift_complex_compute (sigma probe : σ) (nIter nProbe : Nat) (rs : Bool) (th : Option Nat) :
     (exec (computeComplex sigma probe nIter nProbe rs) th sigma).1 = sigma := by
-  rw [exec_computeComplex, h]
-  simp only [Bool.false_eq_true, if_false]
+  rw [exec_computeComplex]
   split <;> rfl
 
-/-- **complex-shift class, as the code is now**: after `construct` and any history of such calls the installed shift is the
+/-- **complex-shift class, as the code is now**: after `construct` and any history of calls the installed shift is the
     constructor's -/
 theorem c06_op_shift_complex (sigma old : σ) (hist : List (CallEv σ)) (h : ∀ ce ∈ hist, ComplexCall sigma ce) :
     runCalls (⟨ctor sigma, none⟩ :: hist) old = sigma := by
@@ -335,21 +335,30 @@ theorem c06_op_shift_complex (sigma old : σ) (hist : List (CallEv σ)) (h : ∀
   | cons ce hist ih =>
     rw [runCalls_cons]
     have hstep : (exec ce.evs ce.throwAt sigma).1 = sigma := by
-      rcases h ce (List.mem_cons_self) with hn | ⟨probe, nIter, nProbe, rs, he, hp⟩
+      rcases h ce (List.mem_cons_self) with hn | ⟨probe, nIter, nProbe, rs, he⟩
       · exact exec_noSet _ _ _ hn
-      · rw [he]; exact c06_op_shift_complex_compute sigma probe nIter nProbe rs _ hp
+      · rw [he]; exact c06_op_shift_complex_compute sigma probe nIter nProbe rs _
     rw [hstep]
     exact ih (fun ce' hm => h ce' (List.mem_cons_of_mem _ hm))
 
-/-- The full-strength clause "the shift installed at construction is in force whenever control returns to the caller" is FALSE for
-    `GenEigsComplexShiftSolver` in one corner that the repair of F3 does not cover: if the USER'S operator throws during one of the
-    (at most `2 nev`) probe applications, the exception leaves `sort_ritzpair` between `set_shift(probe)` and the restoring
-    `set_shift(sigma)` (no guard object), so the probe shift stays installed.  Stated positively on the model; replayed on the real
-    class by the harness (finding F3b when it reproduces). -/
-theorem c06_op_shift_complex_throw_in_probe (sigma probe : σ) (nIter nProbe k : Nat) (h1 : nIter ≤ k) (h2 : k < nIter + nProbe) :
-    (exec (computeComplex sigma probe nIter nProbe true) (some k) sigma).1 = probe := by
-  rw [exec_computeComplex]
-  simp [inProbe, h1, h2]
+/-- in particular a throw of the user's operator inside the probe now leaves the constructor's shift installed -/
+theorem c06_op_shift_complex_throw_in_probe (sigma probe : σ) (nIter nProbe k : Nat) (_h1 : nIter ≤ k) (_h2 : k < nIter + nProbe) :
+    (exec (computeComplex sigma probe nIter nProbe true) (some k) sigma).1 = sigma :=
+  c06_op_shift_complex_compute sigma probe nIter nProbe true (some k)
+
+/-- F3b (repaired in /repo: probe loop wrapped in `try { … } catch (...) { set_shift(sigmar, sigmai); throw; }`): the code BEFORE
+    that repair — restore on the normal path only — violates the property on the model whenever the user's operator throws during
+    one of the probe applications: the probe shift stays installed, for every shift, probe and count -/
+theorem c06_op_shift_complex_unguarded_refuted (sigma probe old : σ) (nInit nIter nProbe k : Nat) (hne : probe ≠ sigma)
+    (h1 : nIter ≤ k) (h2 : k < nIter + nProbe) :
+    runCalls [⟨ctor sigma, none⟩, ⟨initEv nInit, none⟩, ⟨computeComplexUnguarded sigma probe nIter nProbe true, some k⟩] old ≠ sigma := by
+  rw [runCalls_cons, runCalls_cons, runCalls_cons]
+  show (exec (computeComplexUnguarded sigma probe nIter nProbe true) (some k) (exec (initEv nInit) none sigma).1).1 ≠ sigma
+  rw [exec_computeComplexUnguarded_inProbe sigma probe nIter nProbe k _ h1 h2]
+  exact hne
+
+example : (runCalls [⟨ctor (3 : Nat), none⟩, ⟨initEv 2, none⟩, ⟨computeComplexUnguarded 3 7 20 4 true, some 22⟩] 0) = 7 ∧ (7 : Nat) ≠ 3 := by
+  decide
 
 /-- F3 (repaired in /repo, commit ddaf8d1): the code BEFORE the repair violates the property on the model — one converged
     `compute()` leaves the probe shift installed -/
@@ -364,18 +373,19 @@ theorem c06_op_shift_complex_old_refuted (sigma probe old : σ) (nInit nIter nPr
   rw [exec_computeComplexOld_none]
   exact hne
 
-/-- the hypotheses are satisfiable: a history with a non-converging run, a run whose operator throws in the iteration, and an
-    ordinary run -/
+/-- the hypotheses are satisfiable: a history with a non-converging run, a run whose operator throws in the iteration, one whose
+    operator throws inside the probe, and an ordinary run -/
 example : ∀ ce ∈ [(⟨initEv 2, none⟩ : CallEv Nat), ⟨computeComplex 3 7 11 0 false, none⟩, ⟨computeComplex 3 7 40 6 true, some 5⟩,
-    ⟨initEv 2, some 1⟩, ⟨computeComplex 3 7 25 4 true, none⟩], ComplexCall 3 ce := by
+    ⟨initEv 2, some 1⟩, ⟨computeComplex 3 7 25 4 true, some 27⟩, ⟨computeComplex 3 7 25 4 true, none⟩], ComplexCall 3 ce := by
   intro ce hm
   simp only [List.mem_cons, List.not_mem_nil, or_false] at hm
-  rcases hm with rfl | rfl | rfl | rfl | rfl
+  rcases hm with rfl | rfl | rfl | rfl | rfl | rfl
   · exact Or.inl (noSet_applications 2)
-  · exact Or.inr ⟨7, 11, 0, false, rfl, rfl⟩
-  · exact Or.inr ⟨7, 40, 6, true, rfl, rfl⟩
+  · exact Or.inr ⟨7, 11, 0, false, rfl⟩
+  · exact Or.inr ⟨7, 40, 6, true, rfl⟩
   · exact Or.inl (noSet_applications 2)
-  · exact Or.inr ⟨7, 25, 4, true, rfl, rfl⟩
+  · exact Or.inr ⟨7, 25, 4, true, rfl⟩
+  · exact Or.inr ⟨7, 25, 4, true, rfl⟩
 
 end opshift
 
